@@ -627,7 +627,9 @@ pub fn c07_history(nconns: usize, max_blocks: usize) -> BoxedStrategy<Vec<Step>>
 // ---------------------------------------------------------------------------------------
 
 pub fn c02_history(max_len: usize) -> BoxedStrategy<Vec<Step>> {
-    let k = select(vec![bs("e1"), bs("e2"), bs("e3"), bs("e4"), bs("e5")]).boxed();
+    // e1 and o74 share a storage shard (FNV-1a mod 16), as do e2 and o20: code that treats
+    // same-shard pairs specially (RENAME) is reached as often as the general case
+    let k = select(vec![bs("e1"), bs("e2"), bs("e3"), bs("e4"), bs("e5"), same_shard_mate(b"e1"), same_shard_mate(b"e2")]).boxed();
     let v = select(vec![bs("v"), bs("7"), bs("w")]).boxed();
     let m = select(vec![bs("a"), bs("b")]).boxed();
     let ms = select(vec![bs("40"), bs("80"), bs("150"), bs("300"), bs("600"), bs("1000"), bs("1500"), bs("10000000")]).boxed();
@@ -712,4 +714,20 @@ pub fn c02_history(max_len: usize) -> BoxedStrategy<Vec<Step>> {
             s
         })
         .boxed()
+}
+
+/// ferrous shards keys by FNV-1a of the key bytes modulo 16 (src/storage/engine.rs get_shard).
+fn fnv_shard16(k: &[u8]) -> u64 {
+    let mut h: u64 = 0xcbf29ce484222325;
+    for b in k {
+        h ^= *b as u64;
+        h = h.wrapping_mul(0x100000001b3);
+    }
+    h % 16
+}
+
+/// A short key name in the same shard as `w`.
+pub fn same_shard_mate(w: &[u8]) -> Bytes {
+    let t = fnv_shard16(w);
+    (0..10_000).map(|i| format!("o{}", i).into_bytes()).find(|k| fnv_shard16(k) == t && k != w).unwrap()
 }
